@@ -21,6 +21,7 @@ import (
 	"sort"
 	"strings"
 	"sync"
+	"sync/atomic"
 	"testing"
 	"time"
 
@@ -66,6 +67,7 @@ func genStressReg(t *rapid.T) *Case {
 	if opens == 0 {
 		c.Reg = append(c.Reg, RegOp{Kind: "open", Key: keys[0], G: 0})
 	}
+	c.StableRounds = rapid.SampledFrom([]int{0, 40, 120, 300}).Draw(t, "stable_rounds")
 	if rapid.IntRange(0, 2).Draw(t, "yield") == 0 {
 		c.Yields = append(c.Yields, Yield{Point: rapid.SampledFrom([]string{"handler.reverse.betweenAdds", "cb.affinity", "cb.open"}).Draw(t, "yield.point"),
 			Nth: rapid.IntRange(0, 3).Draw(t, "yield.nth"), Repeat: rapid.IntRange(1, 4).Draw(t, "yield.rep"), Kind: rapid.SampledFrom([]string{"gosched", "sleep"}).Draw(t, "yield.kind")})
@@ -254,6 +256,34 @@ func execStressReg(t *testing.T, c *Case) *Trace {
 			res.All = append(res.All, tunnelIndexOf(ch))
 		}
 		sort.Ints(res.All)
+		// stable phase: the set of tunnels no longer changes; RPCs issued through the pooled channel from several goroutines
+		// at once. Whatever the interleaving of the picks, q*n consecutive picks over n tunnels use every tunnel q times.
+		if n := len(res.All); n >= 2 && n == len(res.Open) && c.StableRounds > 0 {
+			st := &StressRegStable{Via: "all", Tunnels: n, Rounds: c.StableRounds, Counts: map[int]int{}}
+			total := int64(n * c.StableRounds)
+			var next atomic.Int64
+			var swg sync.WaitGroup
+			var smu sync.Mutex
+			for g := 0; g < 8; g++ {
+				swg.Add(1)
+				go func() {
+					defer swg.Done()
+					for next.Add(1) <= total {
+						o := &RegObs{Instance: -1, Code: CodeNil}
+						routed(len(c.Reg), "all", o)
+						smu.Lock()
+						if o.Code != CodeNil || o.Instance < 0 {
+							st.Failed++
+						} else {
+							st.Counts[o.Instance]++
+						}
+						smu.Unlock()
+					}
+				}()
+			}
+			swg.Wait()
+			res.Stable = st
+		}
 		// pending waiters: judged by state
 		deadline := time.Now().Add(5 * time.Second)
 		for {
@@ -391,6 +421,16 @@ type StressRegResult struct {
 	WaiterStates    []string          `json:"waiter_states,omitempty"`
 	AllAfterClose   int               `json:"all_after_close"`
 	ReadyAfterClose []string          `json:"ready_after_close,omitempty"`
+	Stable          *StressRegStable  `json:"stable,omitempty"`
+}
+
+// StressRegStable: the RPCs issued from several goroutines at once over a set of tunnels that no longer changes.
+type StressRegStable struct {
+	Via     string      `json:"via"`
+	Tunnels int         `json:"tunnels"`
+	Rounds  int         `json:"rounds"`
+	Failed  int         `json:"failed,omitempty"`
+	Counts  map[int]int `json:"counts"` // serving instance -> RPCs it served
 }
 
 func monStressReg(c *Case, tr *Trace) []Violation {
@@ -467,6 +507,23 @@ func monStressReg(c *Case, tr *Trace) []Violation {
 			}
 		} else if fv.Code != CodeNil || !contains(m, fv.Instance) {
 			add("C12", "open_tunnel_unreachable", "after the concurrent phase an RPC via %s returned code %d (%s) from tunnel %d; the open matching tunnels are %v", fv.Via, fv.Code, fv.Err, fv.Instance, m)
+		}
+	}
+	// round robin over the stable set, under parallelism: any n consecutive picks use each tunnel once, so rounds*n
+	// picks - in whatever order they were made - use each tunnel exactly rounds times
+	if st := res.Stable; st != nil {
+		if st.Failed > 0 {
+			add("C12", "routed_rpc_failed", "%d of the %d RPCs issued through AsChannel() over the stable set of %d open tunnels failed or did not reach a handler", st.Failed, st.Tunnels*st.Rounds, st.Tunnels)
+		} else {
+			uneven := len(st.Counts) != st.Tunnels
+			for _, n := range st.Counts {
+				if n != st.Rounds {
+					uneven = true
+				}
+			}
+			if uneven {
+				add("C12", "round_robin_uneven", "%d RPCs were issued from 8 goroutines through AsChannel() over a stable set of %d open tunnels; each tunnel must have served %d, but the tunnels served %v", st.Tunnels*st.Rounds, st.Tunnels, st.Rounds, st.Counts)
+			}
 		}
 	}
 	// waits
@@ -557,6 +614,9 @@ func labelsStressReg(c *Case, tr *Trace) []string {
 		ls = append(ls, fmt.Sprintf("open_tunnels=%d", len(tr.StressReg.Open)))
 		if len(tr.StressReg.PendingWaits) > 0 {
 			ls = append(ls, "waits_pending_at_end")
+		}
+		if st := tr.StressReg.Stable; st != nil {
+			ls = append(ls, fmt.Sprintf("stable_parallel_rpcs>=%d", (st.Tunnels*st.Rounds)/200*200))
 		}
 	}
 	return ls
